@@ -1,5 +1,5 @@
 package main
 
 func init() {
-	register(&propDef{ID: "T00", Rules: []func(*Ctx){ruleWrapClose, ruleOrderO8}, Explanation: "test", NotDecided: "n/a"})
+	register(&propDef{ID: "T00", Rules: []func(*Ctx){ruleIdx, ruleNilGuard}, Explanation: "test", NotDecided: "n/a"})
 }
